@@ -3,7 +3,8 @@ C16 — Saving to an older UFO format keeps everything that format can express.
 
 Theorems about M-Conv: the conversion functions (`DefconModel/Conv.lean`) and the format branches
 of `Font.save` / `Font(path)` (`DefconModel/ConvSave.lean`).  Helper lemmas are in
-`Lemmas/Conv.lean` and `Lemmas/ConvSave.lean`, hypotheses and the `Preserved` relation in
+`Lemmas/Conv.lean`, `Lemmas/ConvSave.lean`, `Lemmas/ConvSaveFail.lean` and `Lemmas/ConvLayers.lean` (the
+operations on the layer set, histories), hypotheses, the `Preserved` relation and `applyFull` in
 `Spec/Conv.lean` and `Spec/ConvSave.lean`.
 
 `find` is the header expression (a parameter); `featureHeader` is the executable specification of
@@ -11,6 +12,7 @@ the one defcon uses, compared with Python's `re` on every run.
 -/
 import DefconModel.Lemmas.ConvSave
 import DefconModel.Lemmas.ConvSaveFail
+import DefconModel.Lemmas.ConvLayers
 import DefconModel.Lemmas.Replace
 import DefconModel.Props.C18
 
@@ -192,6 +194,7 @@ theorem down_up_preserves (find : Finder) (hf : FinderOK find) (m m' : Mem) (t :
     (heven : t = .f1 → EvenBlues c.parts.hint) :
     ∃ r c', read d mp = some r ∧ observe r = some c' ∧ Preserved find t m.maps mp c c' := by
   obtain ⟨d', hd', rfl⟩ := save_some find m m' t inPlace c hc hs
+  rw [(afterSave_bound m c t _ d').1] at hb
   simp only [Option.some.injEq] at hb
   subst hb
   exact preserved_of_write find hf t m.maps mp c d' (observe_wf m c wf hc) hd' hmaps heven
@@ -245,6 +248,152 @@ file, and the font shows what it showed -/
 example : (saveFailsAtReplace featureHeader demoMem .f2).bind observe = observe demoMem ∧
     ((saveFailsAtReplace featureHeader demoMem .f2).map (fun m => (m.images, m.data, m.bound == demoMem.bound))) =
       some ([("i.png", some 8)], [("a.txt", some 9)], true) := by decide
+
+/-! ## 4b. The layer set changed in memory before a save
+
+A layer in memory has a name (`Layer.name`) and, apart from it, a glyph set: the glyph directory of the
+bound UFO it reads its unloaded glyphs from.  Renaming a layer changes the first and not the second - the
+layer goes on reading from the directory filed under its OLD name until a save binds it to a new one; a
+layer made in memory has no glyph set.  The statements of section 4 are about every font that meets the
+two invariants; here: the operations on the layer set keep them, so they hold along every history. -/
+
+/-- Renaming a layer, adding one, deleting one, making another layer the default one, reordering the
+layers and changing a layer's colour/lib keep the invariants `memory_unchanged` assumes, and leave the
+font bound to the UFO it was bound to. -/
+theorem layer_ops_keep_invariants (m m' : Mem) (op : LayerOp) (wf : MemWF m) (hb : BoundGlif1 m)
+    (h : applyLayerOp m op = some m') : MemWF m' ∧ BoundGlif1 m' ∧ m'.bound = m.bound ∧ m'.fmt = m.fmt := by
+  obtain ⟨hbd, hf, _⟩ := applyLayerOp_bound m m' op h
+  refine ⟨applyLayerOp_wf m m' op wf h, ?_, hbd, hf⟩
+  intro d hd
+  rw [hbd] at hd
+  exact hb d hd
+
+/-- An operation on the layer set changes nothing but the layer set: whatever had been read, the getters
+afterwards show the content they showed before with that one change (`applyFull`) - a renamed layer has
+the glyphs it had, read or not, and its place in the order; a layer re-created under the name of a deleted
+one is empty. -/
+theorem layer_ops_change_only_the_layer_set (m m' : Mem) (op : LayerOp) (c : Full) (hc : observe m = some c)
+    (h : applyLayerOp m op = some m') : observe m' = some (applyFull c op) :=
+  observe_applyLayerOp m m' op c hc h
+
+/-- The invariants hold after EVERY HISTORY that starts from a freshly opened UFO: getters that read some
+glyphs, images and data files, glyph edits, operations on the layer set, changes of the top-level parts,
+saves to any format (in place or elsewhere) and saves that fail at the final replace, in any order and
+number. -/
+theorem invariants_along_history (find : Finder) (d : Disk) (mp : Maps) (m0 m : Mem) (ops : List Op)
+    (wfd : DiskWF d) (hg : DiskGlif1 d) (hr : read d mp = some m0) (hrun : run find m0 ops = some m) :
+    MemWF m ∧ BoundGlif1 m := by
+  obtain ⟨wf0, hb0⟩ := read_wf d mp m0 wfd hg hr
+  exact run_wf find m0 m ops wf0 hb0 hrun
+
+/-- MEMORY UNCHANGED, over histories: open any UFO, do anything of the above in any order - the layer
+operations on a partly read font included -, then save to any format, in place or elsewhere: the getters
+of the font return what they returned before that save. -/
+theorem memory_unchanged_after_history (find : Finder) (d : Disk) (mp : Maps) (m0 m m' : Mem) (ops : List Op)
+    (t : Fmt) (inPlace : Bool) (wfd : DiskWF d) (hg : DiskGlif1 d) (hr : read d mp = some m0)
+    (hrun : run find m0 ops = some m) (hs : save find m t inPlace = some m') : observe m' = observe m := by
+  obtain ⟨wf, hb⟩ := invariants_along_history find d mp m0 m ops wfd hg hr hrun
+  exact memory_unchanged find m m' t inPlace wf hb hs
+
+/-- DOWN AND UP, over histories: after any such history the UFO a save leaves shows, when it is opened,
+what format `t` can express of the content the font held - below format 3 the glyphs of the layer that is
+the default layer IN MEMORY at that moment, whichever glyph directory it was read from and whatever it is
+called. -/
+theorem down_up_preserves_after_history (find : Finder) (hf : FinderOK find) (d0 : Disk) (mp0 : Maps) (m0 m m' : Mem)
+    (ops : List Op) (t : Fmt) (inPlace : Bool) (c : Full) (d : Disk) (mp : Maps)
+    (wfd : DiskWF d0) (hg : DiskGlif1 d0) (hr : read d0 mp0 = some m0) (hrun : run find m0 ops = some m)
+    (hc : observe m = some c) (hs : save find m t inPlace = some m') (hb : m'.bound = some d)
+    (hmaps : t ≠ .f3 → MapsOK mp d.groups d.kerning) (heven : t = .f1 → EvenBlues c.parts.hint) :
+    ∃ r c', read d mp = some r ∧ observe r = some c' ∧ Preserved find t m.maps mp c c' :=
+  down_up_preserves find hf m m' t inPlace c d mp
+    (invariants_along_history find d0 mp0 m0 m ops wfd hg hr hrun).1 hc hs hb hmaps heven
+
+/-- Which glyph directory each layer reads from once a save is done (`_fontSaveWasCompleted`): in format 3
+the one filed under the name the layer has in memory; below format 3 the one directory there is for the
+default layer and NONE for every other layer - which is why `below3_reads_everything` matters. -/
+theorem save_rebinds_layers (find : Finder) (m m' : Mem) (t : Fmt) (inPlace : Bool) (h : save find m t inPlace = some m') :
+    ∀ l ∈ m'.layers, l.src = if t.below3 then (if l.name = m.defaultName then some "public.default" else none)
+      else some l.name :=
+  save_rebinds find m m' t inPlace h
+
+/-- **A RENAMED LAYER SURVIVES A DOWN-CONVERSION.**  Whatever had been read or edited so far (`m`, showing
+content `c`): a layer the getters show as `L` is renamed to `n` in memory and the font is saved as UFO 1 or
+2, in place or elsewhere.  The save completes; afterwards the getters show the content they showed before
+the save - `c` with that one layer called `n` -, in particular the layer `n` with exactly the glyphs of `L`,
+although none of them need have been read before; and if it is not the default layer, every one of its
+glyphs is now in memory and the layer has no glyph set left (the UFO it was reading from is no longer the
+font's).  The layers that are read before the save are those of the layer set in memory, under the names
+they have THERE; a walk over the names the old UFO has for them would not find this one. -/
+theorem renamed_layer_survives_down_conversion (find : Finder) (hf : FinderOK find) (m m1 : Mem) (c : Full)
+    (o n : String) (t : Fmt) (inPlace : Bool) (L : DLayer)
+    (wf : MemWF m) (hb : BoundGlif1 m) (hc : observe m = some c) (hL : L ∈ c.layers) (ho : L.name = o)
+    (hr : applyLayerOp m (.rename o n) = some m1) (ht : t.below3 = true) :
+    ∃ m' c', save find m1 t inPlace = some m' ∧ observe m' = some c' ∧ c' = applyFull c (.rename o n) ∧
+      (⟨n, L.glyphs, L.info⟩ : DLayer) ∈ c'.layers ∧
+      (n ≠ m1.defaultName → ∀ l ∈ m'.layers, l.name = n → l.src = none ∧ ∀ p ∈ l.glyphs, p.2.isSome) := by
+  obtain ⟨wf1, hb1, _, _⟩ := layer_ops_keep_invariants m m1 (.rename o n) wf hb hr
+  have hc1 := observe_applyLayerOp m m1 (.rename o n) c hc hr
+  obtain ⟨d, hd⟩ := write_below3_some find hf t ht m1.maps (applyFull c (.rename o n))
+  have hs : save find m1 t inPlace = some (afterSave m1 (applyFull c (.rename o n)) t (!inPlace || decide (m1.fmt ≠ some t)) d) := by
+    unfold save
+    simp only [hc1, hd]
+  refine ⟨_, applyFull c (.rename o n), hs, ?_, rfl, ?_, ?_⟩
+  · rw [memory_unchanged find m1 _ t inPlace wf1 hb1 hs]; exact hc1
+  · simp only [applyFull, List.mem_map]
+    refine ⟨L, hL, ?_⟩
+    simp only [ho, if_true]
+  · intro hnd l hl hln
+    refine ⟨?_, ?_⟩
+    · rw [save_rebinds find m1 _ t inPlace hs l hl]
+      simp only [ht, if_true, hln, hnd, if_false]
+    · exact (below3_all_loaded find m1 _ t inPlace ht hs).2.2 l hl (Or.inl (by rw [hln]; exact hnd))
+
+/-! ### the layer operations on the concrete font (non-vacuity) -/
+
+/-- the seeded scenario: nothing has been read, the layer `back` is called `sketches` in memory -/
+def demoRenamed : Mem := (applyLayerOp demoMem (.rename "back" "sketches")).getD demoMem
+
+example : applyLayerOp demoMem (.rename "back" "sketches") = some demoRenamed ∧
+    demoRenamed.layers =
+      [⟨"sketches", some "back", [("A", none)], 7⟩, ⟨"fore", some "fore", [("A", none), ("B", none)], 0⟩] := by decide
+
+
+/-- … saved as UFO 2 in place and as UFO 1 elsewhere: the getters still show `sketches` with the glyph that
+is filed under `back` in the UFO 3, now in memory, and the layer has no glyph set -/
+example :
+    ((save featureHeader demoRenamed .f2 true).bind observe).map (fun c => c.layers) =
+      some [⟨"sketches", [("A", ⟨11, 0⟩)], 7⟩, ⟨"fore", [("A", ⟨21, 5⟩), ("B", ⟨22, 0⟩)], 0⟩] ∧
+    (save featureHeader demoRenamed .f2 true).map (fun m => m.layers) =
+      some [⟨"sketches", none, [("A", some ⟨11, 0⟩)], 7⟩,
+            ⟨"fore", some "public.default", [("A", some ⟨21, 5⟩), ("B", some ⟨22, 0⟩)], 0⟩] ∧
+    (save featureHeader demoRenamed .f1 false).bind observe = observe demoRenamed := by decide
+
+/-- the hypotheses of `renamed_layer_survives_down_conversion` on it -/
+example : ∃ c, observe demoMem = some c ∧ (⟨"back", [("A", ⟨11, 0⟩)], 7⟩ : DLayer) ∈ c.layers ∧
+    applyLayerOp demoMem (.rename "back" "sketches") = some demoRenamed ∧ "sketches" ≠ demoRenamed.defaultName :=
+  ⟨_, rfl, by decide, by decide, by decide⟩
+
+/-- a history: one glyph is read, `back` is renamed, a new layer gets a glyph, `back` is deleted and re-created,
+the order is reversed, the new layer becomes the default one; saved as UFO 2: the UFO holds the glyph of the
+new default layer, and the font shows all three layers as before the save -/
+def demoHistory : List Op :=
+  [.load [("fore", "A")] [] [], .layer (.rename "back" "sketches"), .layer (.new "top"), .setGlyph "top" "Z" ⟨31, 2⟩,
+   .layer (.delete "sketches"), .layer (.new "sketches"), .layer (.reorder ["top", "sketches", "fore"]),
+   .layer (.setDefault "top")]
+
+example :
+    ((run featureHeader demoMem demoHistory).bind observe).map (fun c => (c.layers, c.defaultName)) =
+      some ([⟨"top", [("Z", ⟨31, 2⟩)], 0⟩, ⟨"sketches", [], 0⟩, ⟨"fore", [("A", ⟨21, 5⟩), ("B", ⟨22, 0⟩)], 0⟩], "top") ∧
+    ((run featureHeader demoMem (demoHistory ++ [.save .f2 true])).bind (fun m => m.bound)).map (fun d => d.layers) =
+      some [⟨"public.default", [("Z", ⟨31, 0⟩)], 0⟩] ∧
+    (run featureHeader demoMem (demoHistory ++ [.save .f2 true])).bind observe =
+      (run featureHeader demoMem demoHistory).bind observe := by decide
+
+/-- a new default layer after a down-conversion, saved in place in that format (defect F128, repaired): the one
+glyph directory then holds the glyphs of the NEW default layer and nothing of the old one -/
+example :
+    ((run featureHeader demoMem [.save .f2 true, .layer (.setDefault "back"), .save .f2 true]).bind (fun m => m.bound)).map
+      (fun d => d.layers) = some [⟨"public.default", [("A", ⟨11, 0⟩)], 0⟩] := by decide
 
 /-! ## 5. The destination until the save is done (shared with C18) -/
 
